@@ -10,6 +10,15 @@ EXTENDS Naturals, Sequences, FiniteSets, TLC
 
 SeqToSet(s) == {s[i] : i \in 1..Len(s)}
 
+\* The request's surroundings, none of which changes what must be sent or who keeps the key (recorded in req):
+\*   reuse      - the auth object has served another service before
+\*   asyncports - local ports for int-form mappings are handed out on later reactor turns
+\*   delfail    - Tor refuses the first DEL_ONION, the caller removes again
+\*   viator     - through Tor.create_onion_service while the configuration is loading, next to another request
+\*   history    - "removed": a service from the same caller-held key was run and removed on this connection before;
+\*                "refused": Tor refused the first attempt to create a service from that key
+Histories == {"removed", "refused"}
+
 \* req.key: [kind |-> "none" | "discard" | "bare" | "prefixed" | "crlf", type, body]
 KeySpec(req) ==
   CASE req.key.kind \in {"none", "discard"} -> IF req.version = 3 THEN <<"NEW", "ED25519-V3">> ELSE <<"NEW", "BEST">>
@@ -31,6 +40,8 @@ Stored(req, obs) ==
 
 Holds14(v) ==
   LET req == v.req  obs == v.obs IN
+  /\ ("history" \in DOMAIN req => req.history \in Histories)
+  /\
   IF MustReject(req) \/ (MayReject(req) /\ obs.rejected)
   THEN obs.rejected /\ obs.nadd = 0
   ELSE /\ ~obs.rejected /\ obs.nadd = 1
